@@ -34,30 +34,19 @@ def run(tier):
     for k, j in enumerate(jobs):
         if k % 3 == 0:
             j['policy'] = 'time_races'
-    # fixed shapes: a retry policy (count 2) on a plain task and on a join that waits for all inbound tasks; every attempt fails,
-    # or the last one succeeds
+    # fixed shapes (gen.policy_catalogue): retry count 2 on a plain task and on a join, wait-before x timeout, wait-after, ...
     from harness import gen, engrun
-    for joined in (False, True):
-        for last_ok in (False, True):
-            for delay in (0, 1):
-                P = gen.Program()
-                P.order = ['a', 'b', 'j', 'z']
-                P.tasks = {'a': {'kind': 'action', 'succ': [{'to': 'j'}], 'err': [], 'comp': []},
-                           'b': {'kind': 'action', 'succ': ([{'to': 'j'}] if joined else []), 'err': [], 'comp': []},
-                           'j': {'kind': 'action', 'retry': {'count': 2, 'delay': delay}, 'succ': [{'to': 'z'}], 'err': [], 'comp': []},
-                           'z': {'kind': 'action', 'succ': [], 'err': [], 'comp': []}}
-                if joined:
-                    P.tasks['j']['join'] = -1
-                P.oracle = {'j': ['err', 'err', 'ok' if last_ok else 'err']}
-                P.flags = {'retry': True}
-                for k, sch in enumerate(('default', 'legacy')):
-                    jobs.append(dict(prog=P, scheduler=sch, policy=engrun.POLICIES[1:][(k + delay + 2 * joined) % 7], seed=k + 1,
-                                     label='retry2_%s_%s_d%d' % ('join' if joined else 'plain', 'ok' if last_ok else 'err', delay)))
+    for nm, P in gen.policy_catalogue():
+        for k, sch in enumerate(('default', 'legacy')):
+            for pol in (engrun.POLICIES[1:][(k + len(nm)) % 7], 'time_races'):
+                jobs.append(dict(prog=P, scheduler=sch, policy=pol, seed=k + 1, label=nm))
     return ec.run_property(PID, tier, jobs,
                            'generated programs whose tasks carry retry (count 1-2, delay 0/1), wait-before, wait-after, timeout (1-3 s, literal or '
                            'expression), fail-on and pause-before (also combined with wait-before; resumed by the operator at rest) policies with per-attempt outcomes from the oracle, under a virtual clock; one third of the '
                            'runs lets timers fire ahead of pending results; non-trivial = distinct runs in which a task with a policy ran',
-                           _nontrivial)
+                           _nontrivial, strict=True,
+                           model_runs=lambda d: ec.catalogue_model_runs(d, tier, shapes=gen.policy_catalogue(), liveness_for=()),
+                           model_behaviours=lambda d: ec.model_jobs(d, tier, shapes=gen.policy_catalogue(), sims=[(None, 2 if tier == 'quick' else 8, 0, 0, ())]))
 
 
 def replay(path):
